@@ -48,7 +48,7 @@ def compiled_part(acc, tier):
     nsh = 8
     procs = [subproc.popen_module("mc.boundsworker", [tier, sh, nsh], True, env_extra, tag="-boundscheck") for sh in range(nsh)]
     for p in procs:
-        out, err = p.communicate(timeout=3000)
+        out, err = p.communicate(timeout=1200)
         if p.returncode != 0:
             raise HarnessError("boundsworker failed: " + err[-1500:])
         o = json.loads(out.strip().splitlines()[-1])
